@@ -51,6 +51,8 @@ type clSim struct {
 	pending  []WriteRec
 	trace    []string
 	panicked bool
+	lateRelease bool // a new revision was admitted while the clean-up was running (known finding releaseWhileFinalising)
+	eventAt  J // rollout phase / reason / cursor at the moment the user event was injected
 }
 
 var clRoKey = types.NamespacedName{Namespace: trNS, Name: "r"}
@@ -422,7 +424,7 @@ func (s *clSim) snapshot(label string) {
 		wlx = J{"partition": iosOutPtr(cs.Spec.UpdateStrategy.Partition), "paused": cs.Spec.UpdateStrategy.Paused,
 			"controlled": cs.Annotations[util.BatchReleaseControlAnnotation] != "", "updated": int(cs.Status.UpdatedReplicas)}
 	}
-	s.c.EmitAs("cluster", "snapshot", J{"label": label, "exists": ok, "w": w, "wlx": wlx, "scenario": s.sc.Name}, nil)
+	s.c.EmitAs("cluster", "snapshot", J{"label": label, "exists": ok, "w": w, "wlx": wlx, "scenario": s.sc.Name, "lateRelease": s.lateRelease}, nil)
 }
 
 func (s *clSim) terminal() bool {
@@ -483,17 +485,59 @@ type clPlan struct {
 	k     int    // fault: fail from the k-th API call of that reconcile
 	event string // user event injected at reconcile index evAt: "", "rollback", "delete", "release3"
 	evAt  int
+	// evWhen "finalising": the event strikes at the first round in which the clean-up is running and has
+	// already removed the in-progress annotation (instead of at reconcile index evAt)
+	evWhen string
+}
+
+// where reports the rollout's phase, Progressing reason, clean-up cursor and the workload's in-progress mark
+func (s *clSim) where() J {
+	ro := &v1beta1.Rollout{}
+	if err := s.cli.Client.Get(context.TODO(), clRoKey, ro); err != nil {
+		return J{"phase": "gone", "reason": "", "finStep": "", "inProgressAnno": false}
+	}
+	reason := ""
+	if c := util.GetRolloutCondition(ro.Status, v1beta1.RolloutConditionProgressing); c != nil {
+		reason = c.Reason
+	}
+	fin := ""
+	if sub := ro.Status.GetSubStatus(); sub != nil {
+		fin = string(sub.FinalisingStep)
+	}
+	cs := &kruisev1alpha1.CloneSet{}
+	anno := false
+	if err := s.cli.Client.Get(context.TODO(), clWlKey, cs); err == nil {
+		_, anno = cs.Annotations[util.InRolloutProgressingAnnotation]
+	}
+	return J{"phase": string(ro.Status.Phase), "reason": reason, "finStep": fin, "inProgressAnno": anno}
+}
+
+// cleaningUp: doFinalising is running (cursor set, not END) and has already removed the in-progress annotation
+func (s *clSim) cleaningUp(late bool) bool {
+	w := s.where()
+	if !(w["phase"] == "Progressing" && w["finStep"] != "" && w["finStep"] != "END" && w["inProgressAnno"] == false) {
+		return false
+	}
+	if late {
+		// the BatchRelease has already been resumed and deleted
+		br := &v1beta1.BatchRelease{}
+		return apierrors.IsNotFound(s.cli.Client.Get(context.TODO(), clRoKey, br))
+	}
+	return true
 }
 
 // run drives one scenario to its terminal state under a disturbance plan; returns the final state.
-func clRun(c *Ctx, sc clScenario, plan clPlan, snap bool, budget int) (J, int, bool, []string) {
+func clRun(c *Ctx, sc clScenario, plan clPlan, snap bool, budget int) (J, int, bool, []string, J) {
 	s := clNewSim(c, sc)
 	s.round(false) // Initial -> Healthy, completed sub-status for the first deployment
 	s.round(false)
 	s.release("v2")
 	done := false
 	for i := 0; i < budget; i++ {
-		if plan.event != "" && s.recs >= plan.evAt {
+		if plan.event != "" && ((plan.evWhen == "" && s.recs >= plan.evAt) || (plan.evWhen == "finalising" && s.cleaningUp(false)) ||
+			(plan.evWhen == "finalising-late" && s.cleaningUp(true))) {
+			s.eventAt = s.where()
+			s.lateRelease = plan.event != "delete" && s.cleaningUp(false)
 			switch plan.event {
 			case "rollback":
 				s.release("v1")
@@ -536,7 +580,7 @@ func clRun(c *Ctx, sc clScenario, plan clPlan, snap bool, budget int) (J, int, b
 			break
 		}
 	}
-	return s.finalState(), s.recs, done && !s.panicked, s.trace
+	return s.finalState(), s.recs, done && !s.panicked, s.trace, s.eventAt
 }
 
 func clScenarios(c *Ctx, n int) []clScenario {
@@ -546,6 +590,9 @@ func clScenarios(c *Ctx, n int) []clScenario {
 		{Name: "int-notraffic", Replicas: 5, HasTraffic: false, Steps: []rsStep{{Replicas: J{"i": 1}, Pause: "short"}, {Replicas: J{"i": 3}, Pause: "manual"}, {Replicas: J{"i": 5}, Pause: "short"}}},
 		{Name: "mixed-traffic-then-plain", Replicas: 7, HasTraffic: true, Steps: []rsStep{{Replicas: J{"p": 30}, Weight: w(10), Pause: "manual"}, {Replicas: J{"p": 60}, Pause: "short"}, {Replicas: J{"p": 100}, Pause: "short"}}},
 	}
+	base = append(base,
+		clScenario{Name: "full-first-step", Replicas: 4, HasTraffic: true, Steps: []rsStep{{Replicas: J{"p": 100}, Weight: w(10), Pause: "manual"}}},
+		clScenario{Name: "roundup-full-step", Replicas: 3, HasTraffic: true, Steps: []rsStep{{Replicas: J{"p": 30}, Weight: w(20), Pause: "short"}, {Replicas: J{"p": 70}, Weight: w(50), Pause: "manual"}, {Replicas: J{"p": 100}, Weight: w(100), Pause: "short"}}})
 	out := base
 	for i := 0; i < n; i++ {
 		R := 2 + c.Rng.Intn(12)
@@ -590,7 +637,7 @@ func runCluster(c *Ctx) {
 	}
 	budget := 80
 	for _, sc := range clScenarios(c, nScen) {
-		base, recs, ok, trace := clRun(c, sc, clPlan{kind: "none"}, true, budget)
+		base, recs, ok, trace, _ := clRun(c, sc, clPlan{kind: "none"}, true, budget)
 		c.EmitAs("cluster", "final", J{"scenario": sc.Name, "plan": "baseline", "baseline": base, "run": base, "done": ok, "reconciles": recs,
 			"steps": len(sc.Steps), "trace": trace, "sameOutcome": true}, nil)
 		if !ok {
@@ -602,17 +649,25 @@ func runCluster(c *Ctx) {
 			if c.Thorough() && i < recs {
 				plan.at = 4 + i
 			}
-			fin, r2, ok2, tr2 := clRun(c, sc, plan, i%3 == 0, budget+20)
+			fin, r2, ok2, tr2, _ := clRun(c, sc, plan, i%3 == 0, budget+20)
 			c.EmitAs("cluster", "final", J{"scenario": sc.Name, "plan": fmt.Sprintf("%s@%d/%d", plan.kind, plan.at, plan.k), "baseline": base, "run": fin,
-				"done": ok2, "reconciles": r2, "steps": len(sc.Steps), "trace": tr2, "sameOutcome": true}, nil)
+				"done": ok2, "reconciles": r2, "steps": len(sc.Steps), "trace": tr2, "sameOutcome": true, "disturbed": true}, nil)
 		}
 		// user events at a reconcile index (different outcome than the baseline: only invariants and cleanliness are judged)
-		for i := 0; i < perScen/2+1; i++ {
+		for i := 0; i < perScen/2+2; i++ {
 			ev := pickS(c, "rollback", "delete", "release3")
 			plan := clPlan{kind: pickS(c, "none", "crash", "die"), at: 6 + c.Rng.Intn(recs), k: c.Rng.Intn(4), event: ev, evAt: 5 + c.Rng.Intn(recs)}
-			fin, r2, ok2, tr2 := clRun(c, sc, plan, true, budget+40)
-			c.EmitAs("cluster", "final", J{"scenario": sc.Name, "plan": fmt.Sprintf("%s@%d+%s", ev, plan.evAt, plan.kind), "baseline": base, "run": fin,
-				"done": ok2, "reconciles": r2, "steps": len(sc.Steps), "trace": tr2, "sameOutcome": false, "event": ev}, nil)
+			name := fmt.Sprintf("%s@%d+%s", ev, plan.evAt, plan.kind)
+			if i < 2 {
+				// deterministic: a new revision admitted while the clean-up is running (before / after the BatchRelease is gone)
+				plan = clPlan{kind: "none", event: pickS(c, "rollback", "release3"), evWhen: []string{"finalising", "finalising-late"}[i]}
+				name = fmt.Sprintf("%s@%s+none", plan.event, plan.evWhen)
+				ev = plan.event
+			}
+			fin, r2, ok2, tr2, evAt := clRun(c, sc, plan, true, budget+40)
+			c.EmitAs("cluster", "final", J{"scenario": sc.Name, "plan": name, "baseline": base, "run": fin,
+				"done": ok2, "reconciles": r2, "steps": len(sc.Steps), "trace": tr2, "sameOutcome": false, "event": ev, "eventAt": evAt,
+				"disturbed": plan.kind != "none"}, nil)
 		}
 	}
 }
